@@ -131,6 +131,62 @@ def damages(d, truth, rnd, sample_big):
                 yield (f'index row {r[0]} ({r[1][:8]}): {col} {val} -> {nv}', ap, un)
 
 
+def scan_line_and_impl(d):
+    """(driver line for ValidateScan.validate_f on the raw state of d, the report of the real validate() in the same form) or None when a
+    field is negative (outside the model's nat domain)"""
+    import dataclasses
+    import hashlib
+    from disk_objectstore import Container
+    from disk_objectstore.utils import PackedObjectReader, compute_hash_and_size
+    con = sqlite3.connect(f'file:{os.path.join(d, "packs.idx")}?mode=ro', uri=True)
+    rows = con.execute('select hashkey,pack_id,offset,length,compressed,size from db_object order by id').fetchall()
+    con.close()
+    if any(min(r[2], r[3], r[5]) < 0 or r[1] < 0 for r in rows):
+        return None
+    loose = {}
+    ldir = os.path.join(d, 'loose')
+    for root, _, files in os.walk(ldir):
+        for f in files:
+            loose[os.path.relpath(os.path.join(root, f), ldir).replace(os.sep, '')] = hashlib.sha256(open(os.path.join(root, f), 'rb').read()).hexdigest()
+    c = Container(d)
+    try:
+        allk = sorted({r[0] for r in rows} | set(loose))
+        rk = {k: i for i, k in enumerate(allk)}
+        extra = {}
+
+        def rank(h):
+            if h in rk:
+                return rk[h]
+            return extra.setdefault(h, len(allk) + len(extra))
+        parts = []
+        for k, p, o, l, comp, sz in rows:
+            hk, cs = -1, 0
+            try:
+                # what _validate_hashkeys_pack computes for this entry, through the library's own stream classes (tied by C07)
+                with open(os.path.join(d, 'packs', str(p)), 'rb') as fh:
+                    rd = PackedObjectReader(fhandle=fh, offset=o, length=l)
+                    if comp:
+                        rd = c._get_stream_decompresser()(rd)
+                    h, n = compute_hash_and_size(rd, 'sha256')
+                    hk, cs = rank(h), n
+            except Exception:
+                hk = -1
+            parts.append(f'{rk[k]}:{p}:{o}:{l}:{1 if comp else 0}:{sz}:{hk}:{cs}')
+        line = 'vscan | ' + ','.join(parts) + ' | ' + ','.join(f'{rk[k]}:{rank(h)}' for k, h in loose.items())
+        try:
+            v = c.validate()
+            dd = {f.name: sorted(rk.get(x, -1) for x in getattr(v, f.name)) for f in dataclasses.fields(v)}
+            impl = ';'.join(','.join(map(str, dd.get(n, []))) for n in ('invalid_hashes_packed', 'invalid_sizes_packed', 'overlapping_packed', 'invalid_hashes_loose'))
+            other = {n: x for n, x in dd.items() if x and n not in ('invalid_hashes_packed', 'invalid_sizes_packed', 'overlapping_packed', 'invalid_hashes_loose')}
+            if other:
+                impl += f' other={other}'
+        except Exception:
+            impl = 'raises'
+        return line, impl
+    finally:
+        c.close()
+
+
 def sweep_container(args):
     seed, big, shard, nshards = args
     common.use_repo()
@@ -143,10 +199,15 @@ def sweep_container(args):
         assert readable_right(c, truth) and clean(c), 'undamaged container must be clean'
         c.close()
         rnd = random.Random(seed + 1)
+        scans = [('undamaged',) + scan_line_and_impl(d)] if shard == 0 else []
         for j, (desc, ap, un) in enumerate(damages(d, truth, rnd, big)):
             if j % nshards != shard:
                 continue
             ap()
+            if not big and (desc.startswith('index row') or j % 24 == shard % 24):
+                li = scan_line_and_impl(d)
+                if li is not None:
+                    scans.append((desc,) + li)
             c = Container(d)
             ok = readable_right(c, truth)
             cl = clean(c)
@@ -157,7 +218,19 @@ def sweep_container(args):
                 harmless += 1
             if not ok and cl:
                 missed.append(desc)
-        return {'n': n, 'missed': missed[:5], 'harmless': harmless, 'seed': seed, 'big': big}
+        bad = []
+        if scans:
+            import subprocess
+            pr = subprocess.run([os.path.join(common.OCAML, 'driver')], input='\n'.join(x[1] for x in scans) + '\n', capture_output=True, text=True, timeout=600)
+            outs = pr.stdout.splitlines()
+            if len(outs) != len(scans):
+                bad.append(('driver', f'{len(outs)} lines for {len(scans)} commands {pr.stderr[-200:]}', ''))
+            for (desc, _line, impl), mo in zip(scans, outs):
+                if mo != 'raises':
+                    mo = ';'.join(','.join(map(str, sorted(int(x) for x in f.split(',') if x))) for f in mo.split(';'))
+                if mo != impl:
+                    bad.append((desc, mo, impl))
+        return {'n': n, 'missed': missed[:5], 'harmless': harmless, 'seed': seed, 'big': big, 'scans': len(scans), 'scan_bad': bad[:3]}
     finally:
         shutil.rmtree(root, ignore_errors=True)
 
@@ -253,6 +326,10 @@ def main(tier, seed, replay=None):
                     {'kind': 'damage', 'container_seed': r['seed'], 'big': r['big'], 'damages': r['missed']}, 'C12:false-negative')
             break
     ck.sample({'container_seed': jobs[0][0], 'damages_tried': total, 'harmless': harmless})
+    nsc = sum(r.get('scans', 0) for r in results)
+    sb = [b for r in results for b in r.get('scan_bad', [])]
+    ck.obligation(f'ValidateScan.validate_f == the report of validate() (four issue lists, or raising) on {nsc} damaged / undamaged states',
+                  not sb and nsc > 0, f'after {sb[0][0]}: model {sb[0][1]} implementation {sb[0][2]}' if sb else '', kind='correspondence')
     try:
         page_boundary(ck)
     except Exception as e:
